@@ -55,7 +55,13 @@ func runLBCB(x *X) {
 		x.Blocked(e, "lbcb")
 	}
 	var h *lbHarness
-	x.Do("setup", func() { h, _ = newLBHarness(x, net, lbOpts{strategy: strategy, backends: bcs, breaker: &cb}) }, onErr)
+	// in half of the runs the balancer sits behind Helios' whole handler chain, whose end-to-end
+	// deadline (server.timeouts.handler, 1 s here) ends requests a backend stalls on: a failed
+	// proxied request like any other
+	fullChain := c.Intn(2, "full-handler-chain") == 1
+	x.Do("setup", func() {
+		h, _ = newLBHarness(x, net, lbOpts{strategy: strategy, backends: bcs, breaker: &cb, fullChain: fullChain, handlerTimeout: 1})
+	}, onErr)
 	if h == nil {
 		s.Teardown()
 		return
@@ -93,7 +99,11 @@ func runLBCB(x *X) {
 			interim = []int{103}
 			x.Probe("interim-before-final-status")
 		}
-		ok := x.Do("req", func() { r = h.do(reqSpec{client: "192.0.2.1", plan: &reqPlan{mode: class, interim: interim}}) }, onErr)
+		plan := &reqPlan{mode: class, interim: interim}
+		if class == "timeout" {
+			plan = &reqPlan{mode: "ok", delay: 5 * time.Second}
+		}
+		ok := x.Do("req", func() { r = h.do(reqSpec{client: "192.0.2.1", plan: plan}) }, onErr)
 		return r, ok
 	}
 	failClasses := func() string {
@@ -146,6 +156,15 @@ func runLBCB(x *X) {
 			continue
 		}
 		class := classes[c.Intn(len(classes), "class")]
+		if fullChain && c.Intn(6, "stalled-backend") == 0 {
+			class = "timeout" // the backend takes the request and does not answer before the handler deadline
+			// (not where the second it takes would straddle the interval rule: admitted within
+			// `interval` of the last failure, failing after it -- whether those two failures
+			// "accumulate" is then a matter of reading, and this model does not take sides)
+			if n := len(fails); n > 0 && x.Now()-fails[n-1].at <= interval && x.Now()+time.Second-fails[n-1].at > interval {
+				class = "s500"
+			}
+		}
 		// a trial the client walks away from while the backend has not answered: whatever the
 		// breaker makes of it (a failure, or nothing), it is not a success
 		if (mode == "probing" || (mode == "open" && x.Now() > openedAfter+timeout)) && c.Intn(4, "cancelled-trial") == 0 {
@@ -183,6 +202,9 @@ func runLBCB(x *X) {
 		if class != "ok" && class != "s404" {
 			x.Fault("backend-" + class)
 		}
+		if class == "timeout" {
+			x.Probe("handler-deadline-ends-a-stalled-request")
+		}
 		invAt := x.Now()
 		if mode == "open" && invAt > openedAfter+timeout {
 			mode, succ = "probing", 0
@@ -192,7 +214,7 @@ func runLBCB(x *X) {
 			break
 		}
 		contacted := dispatched(r.id)
-		failed := contacted && (class == "s500" || class == "unreach" || class == "abort")
+		failed := contacted && (class == "s500" || class == "unreach" || class == "abort" || class == "timeout")
 		switch mode {
 		case "open":
 			if invAt < openedAfter+timeout { // strictly inside: the boundary instant is not judged
